@@ -114,7 +114,47 @@ def fut_recv_roots(ctx):
             ctx.fn1(r'^multiqueue::FutInnerUniRecv::<.*>::try_recv$'),
             ctx.fn1(r'^multiqueue::FutInnerUniRecv::<.*>::recv$'),
             ctx.fn1(r'^multiqueue::FutInnerRecv::<.*>::try_recv$'),
-            ctx.fn1(r'^multiqueue::FutInnerRecv::<.*>::recv$')]
+            ctx.fn1(r'^multiqueue::FutInnerRecv::<.*>::recv$')] + new_fut_recv_roots(ctx)
+
+
+def root_flavours(name):
+    if re.match(r'^(<&?(\'a )?)?broadcast::', name):
+        return ['BCast']
+    if re.match(r'^(<&?(\'a )?)?mpmc::', name):
+        return ['MPMC']
+    return list(FLAVOURS)
+
+
+def new_fut_recv_roots(ctx):
+    """entry points that do not exist in the reference tree (a new public method, the `next` of a new iterator type) and
+    move the position of a stream through a futures receive handle: they owe the producers' task list the same
+    notification as the receive functions of the reference tree"""
+    got = getattr(ctx, '_new_fut_recv_roots', None)
+    if got is not None:
+        return got
+    F = ctx.F
+    out = []
+    rev = ctx.revcg()
+    for name in sorted(F.fresh):
+        f = F.fns.get(name)
+        if f is None or f['kind'] == 'Closure' or f.get('from_expansion') or rev.get(name):
+            continue
+        if not re.match(r'^(<&?(\'a )?)?(multiqueue|broadcast|mpmc)::', name):
+            continue
+        # an inherent function of the inner layer that nothing calls is dead code (the inner types are not exported);
+        # trait methods (`next`, `poll`) and the public wrappers are reachable by users
+        if name.startswith('multiqueue::'):
+            continue
+        try:
+            g = ctx.graph(name, root_flavours(name)[0])
+        except CheckError:
+            continue
+        x = g.x
+        commits = [a for a in x.atoms_on('ReaderPos.pos_data') if a.op in WRITE_OPS]
+        if any(re.search(r'FutInner(Uni)?Recv\.reader/', p_) for a in commits for p_ in a.paths):
+            out.append(name)
+    ctx._new_fut_recv_roots = out
+    return out
 
 
 def _prod_notifies(g, x):
@@ -130,7 +170,7 @@ def _prod_notifies(g, x):
 def _p11d(ctx):
     roots = fut_recv_roots(ctx)
     for r in roots:
-        for fl in FLAVOURS:
+        for fl in root_flavours(r):
             g = ctx.graph(r, fl)
             x = g.x
             commits = [a for a in x.atoms_on('ReaderPos.pos_data') if a.op in WRITE_OPS]
